@@ -338,7 +338,7 @@ func (e *Enc) panicAt(fr *Frame, guard T, pos token.Pos, what string) {
 		e.oblige("unreachable-panic", e.srcLabel(pos, what), guard, Or(conds...), what, pos)
 		return
 	}
-	if c != nil && c.NoPanic || e.prog.checkPanics {
+	if e.contract != nil && e.contract.NoPanic || e.prog.checkPanics {
 		e.oblige("unreachable-panic", e.srcLabel(pos, what), guard, False, what, pos)
 	}
 }
@@ -517,7 +517,7 @@ func (e *Enc) typeAssert(fr *Frame, x *ssa.TypeAssert, guard T) {
 }
 
 func (e *Enc) panicGuard(fr *Frame, guard, okCond T, pos token.Pos, what string) {
-	if fr.contract != nil && fr.contract.NoPanic || e.prog.checkPanics {
+	if e.contract != nil && e.contract.NoPanic || e.prog.checkPanics {
 		e.obligeAssume("unreachable-panic", e.srcLabel(pos, what), guard, okCond, what, pos)
 		return
 	}
